@@ -69,7 +69,7 @@ def build(case):
         B.proxies[name] = p
         B.sym[name] = add_symbol(m, name, p)
     sections = [("text", None)] + [(n, n) for n in case.get("sections", [])]
-    addr = 0x1000
+    addr = case.get("base", 0x1000)
     B.sect_blocks = {}
     pending_exprs = []
     for key, sname in sections:
@@ -371,8 +371,14 @@ def fresh_imm(rng):
 def gen_code_block(rng, labels, externs, term=None):
     insns = []
     for _ in range(rng.randint(0, 3)):
-        k = rng.choice(["mov", "mov", "nop", "push", "pop"])
-        insns.append(["mov", fresh_imm(rng)] if k == "mov" else [k])
+        k = rng.choice(["mov", "mov", "nop", "push", "pop", "lea"])
+        if k == "mov":
+            insns.append(["mov", fresh_imm(rng)])
+        elif k == "lea" and labels:
+            # a data reference in code, some with an addend
+            insns.append(["lea", rng.choice(labels + externs), rng.choice([0, 0, 4, 8, -4])])
+        else:
+            insns.append([k if k != "lea" else "nop"])
     term = term if term is not None else rng.choice([None, None, "jmp", "jcc", "call", "ret"])
     if term in ("jmp", "jcc"):
         insns.append([term, rng.choice(labels)])
@@ -422,7 +428,7 @@ def gen_case(rng, nblocks=None, with_data=True, with_funcs=True, nedits=None, cf
             nb = rng.randint(1, 8)
             d = {"kind": "data", "bytes": [rng.randrange(256) for _ in range(nb)], "syms": syms}
             if nb == 8 and code_labels and rng.random() < 0.5:
-                d["symexprs"] = [[0, rng.choice(code_labels), 0]]
+                d["symexprs"] = [[0, rng.choice(code_labels), rng.choice([0, 0, 8, 16])]]
         text.append(d)
     # mark entries: first block of each function
     seen = set()
